@@ -55,3 +55,16 @@ pub(crate) fn check<S: AsRef<str>>(fid: S) -> Result<(), RedoError> {
         Ok(())
     }
 }
+
+#[cfg(feature = "verif")]
+pub mod verif_hooks {
+    /// `cycles::add` for the correspondence check.
+    pub fn cycles_add(fid: &str) {
+        super::add(fid.to_string())
+    }
+
+    /// `cycles::check` for the correspondence check: `true` = cyclic dependency reported.
+    pub fn cycles_check(fid: &str) -> bool {
+        super::check(fid).is_err()
+    }
+}
